@@ -4,38 +4,42 @@
    meaningful to the scanner under test (delimiters, halves of delimiters, escapes cut short,
    numbers that overflow).  Because the halves of multi-byte tokens are tokens themselves, the
    reachable states contain every truncation of every generated packet.
-   Tokens: sequence of records [n |-> name, b |-> bytes, hot |-> BOOLEAN]; `hot` marks tokens
-   whose mere presence defines the class of the input (e.g. a chunk size that overflows).
+   Fams: sequence of families [name, toks, pres, maxlen] - one per function family under test;
+     toks: sequence of [n |-> name, b |-> bytes, hot |-> BOOLEAN]; `hot` marks tokens whose mere
+           presence defines the class of the input (e.g. a chunk size that overflows);
+     pres: sequence of [n |-> name, b |-> bytes] (preambles).
    Class (the <shape> of finding keys): "has:<first hot token>", else "ends:<last token>".   *)
 EXTENDS Naturals, Sequences, TLC, Json
-CONSTANTS Tokens, Pres, MaxLen
-VARIABLES pre, its, cs
+CONSTANTS Fams
+VARIABLES fam, pre, its, cs
 
-RECURSIVE Bytes(_)
-Bytes(s) == IF s = <<>> THEN <<>> ELSE Tokens[Head(s)].b \o Bytes(Tail(s))
-RECURSIVE Names(_)
-Names(s) == IF s = <<>> THEN <<>> ELSE <<Tokens[Head(s)].n>> \o Names(Tail(s))
-RECURSIVE FirstHot(_)
-FirstHot(s) == IF s = <<>> THEN "" ELSE IF Tokens[Head(s)].hot THEN Tokens[Head(s)].n ELSE FirstHot(Tail(s))
+Toks(f) == Fams[f].toks
+RECURSIVE Bytes(_, _)
+Bytes(f, s) == IF s = <<>> THEN <<>> ELSE Toks(f)[Head(s)].b \o Bytes(f, Tail(s))
+RECURSIVE Names(_, _)
+Names(f, s) == IF s = <<>> THEN <<>> ELSE <<Toks(f)[Head(s)].n>> \o Names(f, Tail(s))
+RECURSIVE FirstHot(_, _)
+FirstHot(f, s) == IF s = <<>> THEN "" ELSE IF Toks(f)[Head(s)].hot THEN Toks(f)[Head(s)].n ELSE FirstHot(f, Tail(s))
 
-MkCase(p, s) ==
-   LET h == FirstHot(s) IN
-   [pre |-> Pres[p].n, items |-> Names(s), bytes |-> Pres[p].b \o Bytes(s),
+MkCase(f, p, s) ==
+   LET h == FirstHot(f, s)  P == Fams[f].pres[p] IN
+   [fam |-> Fams[f].name, pre |-> P.n, items |-> Names(f, s), bytes |-> P.b \o Bytes(f, s),
     kind |-> IF h # "" THEN "has" ELSE "ends",
-    tok  |-> IF h # "" THEN h ELSE IF s = <<>> THEN Pres[p].n ELSE Tokens[s[Len(s)]].n]
+    tok  |-> IF h # "" THEN h ELSE IF s = <<>> THEN P.n ELSE Toks(f)[s[Len(s)]].n]
 
-Init == /\ pre \in 1..Len(Pres) /\ its = <<>> /\ cs = MkCase(pre, <<>>)
-Next == /\ Len(its) < MaxLen
-        /\ \E t \in 1..Len(Tokens) : its' = Append(its, t)
-        /\ pre' = pre
-        /\ cs' = MkCase(pre, its')
-Spec == Init /\ [][Next]_<<pre, its, cs>>
+Init == /\ fam \in 1..Len(Fams) /\ pre \in 1..Len(Fams[fam].pres) /\ its = <<>>
+        /\ cs = MkCase(fam, pre, <<>>)
+Next == /\ Len(its) < Fams[fam].maxlen
+        /\ \E t \in 1..Len(Toks(fam)) : its' = Append(its, t)
+        /\ UNCHANGED <<fam, pre>>
+        /\ cs' = MkCase(fam, pre, its')
+Spec == Init /\ [][Next]_<<fam, pre, its, cs>>
 
-RECURSIVE SumLen(_)
-SumLen(s) == IF s = <<>> THEN 0 ELSE Len(Tokens[Head(s)].b) + SumLen(Tail(s))
-SizeLaw  == Len(cs.bytes) = Len(Pres[pre].b) + SumLen(its)
+RECURSIVE SumLen(_, _)
+SumLen(f, s) == IF s = <<>> THEN 0 ELSE Len(Toks(f)[Head(s)].b) + SumLen(f, Tail(s))
+SizeLaw  == Len(cs.bytes) = Len(Fams[fam].pres[pre].b) + SumLen(fam, its)
 ByteLaw  == \A i \in 1..Len(cs.bytes) : cs.bytes[i] \in 0..255
 ClassLaw == /\ cs.kind \in {"has", "ends"}
-            /\ (cs.kind = "ends" /\ its # <<>>) => cs.tok = Tokens[its[Len(its)]].n
+            /\ (cs.kind = "ends" /\ its # <<>>) => cs.tok = Toks(fam)[its[Len(its)]].n
 Emit == PrintT(ToJson(cs))
 =============================================================================
